@@ -824,7 +824,7 @@ mod api {
                         for form in [suffixed.to_string(), format!("{}.", suffixed), format!("({})", suffixed)] {
                             let a = s2.typ(&form).unwrap(); s2.finish();
                             let sel = a.get_suggestions()[a.previously_selected_index()].clone();
-                            if !sel.contains(want.as_str()) { o.fail(json!({"clause": "C09 suffixed form of a learned word stays preselected after it was first typed behind punctuation", "history": s2.history(), "observed": sel, "expected_core": want})); break; }
+                            if !sel.contains(want.as_str()) { o.fail(json!({"clause": "C05 C09 suffixed form of a learned word stays preselected after it was first typed behind punctuation (the preselected index does not depend on what was typed before)", "history": s2.history(), "observed": sel, "expected_core": want})); break; }
                         }
                     }
                     if !suffixed.is_empty() {
@@ -838,6 +838,41 @@ mod api {
                     o.nontrivial += 1;
                     o.sample(json!({"word": w, "learned": text}));
                 }
+            }
+        }
+        // re-teaching with a SHORTER text: the file written for the longer choice is replaced as a whole (no stale tail), the store
+        // on disk is at all times a JSON object of strings equal to what was learned, and a new context recalls the last choice
+        {
+            let cfgv = phon_cfg(json!({}));
+            crate::verif_driver::reset_user_files();
+            let mut expected: std::collections::BTreeMap<String, String> = Default::default();
+            for w in ["as", "kotha", "sesh", "amar"] {
+                o.cases += 1;
+                let mut s = Sess::new(cfgv.clone());
+                let sg = s.typ(w).unwrap();
+                if sg.is_lonely() || sg.len() < 3 { continue; }
+                let pre = sg.previously_selected_index();
+                let mut order: Vec<usize> = (0..sg.len()).filter(|i| *i != pre).collect();
+                order.sort_by_key(|i| std::cmp::Reverse(sg.get_suggestions()[*i].len()));
+                let (long, short) = (order[0], *order.last().unwrap());
+                let (long_t, short_t) = (sg.get_suggestions()[long].clone(), sg.get_suggestions()[short].clone());
+                if long_t.len() <= short_t.len() { continue; }
+                s.commit(long);
+                let sg2 = s.typ(w).unwrap();
+                let idx = match sg2.get_suggestions().iter().position(|x| *x == short_t) { Some(i) => i, None => continue };
+                s.commit(idx);
+                expected.insert(w.to_string(), short_t.clone());
+                let txt = crate::verif_driver::read_user_file("phonetic-candidate-selection.json").unwrap_or_default();
+                match serde_json::from_str::<std::collections::BTreeMap<String, String>>(&txt) {
+                    Ok(m) => if m != expected { o.fail(json!({"clause": "C09 the on-disk store holds exactly the learned choices", "history": s.history(), "observed": txt, "expected": expected})); },
+                    Err(_) => o.fail(json!({"clause": "C09 the on-disk store is at all times a JSON object of strings that a new context can load (re-taught with a shorter text)", "history": s.history(), "observed": txt, "expected": expected})),
+                }
+                let mut fresh = Sess::new(cfgv.clone());
+                let a = fresh.typ(w).unwrap(); fresh.finish();
+                if a.get_suggestions().get(a.previously_selected_index()) != Some(&short_t) {
+                    o.fail(json!({"clause": "C09 learned choice preselected after a restart (re-taught with a shorter text)", "history": {"first_context": s.history(), "new_context": fresh.history()}, "observed": show(&a), "expected": short_t}));
+                }
+                o.nontrivial += 1;
             }
         }
         crate::verif_driver::reset_user_files();
